@@ -329,9 +329,12 @@ pub fn recover_and_judge(
     }
     // the recovered database must be fully usable
     sess.model = reference;
+    let big_first_write = rng.chance(0.25);
     for i in 0..10 {
         let k = format!("~post{:02}", i).into_bytes();
-        let v = gen::tagged_value(rng, &format!("post{i}:"), 24);
+        // sometimes the very first write after recovery is itself a multi-block log record
+        let len = if i == 0 && big_first_write { 40_000 } else { 24 };
+        let v = gen::tagged_value(rng, &format!("post{i}:"), len);
         let r = if i == 7 {
             let victim = universe.iter().next().cloned().unwrap_or_else(|| b"x".to_vec());
             sess.write(vec![(k.clone(), Some(v)), (victim, None)])
